@@ -653,6 +653,11 @@ fn case_spawn(reports: &[ProcReport], programs: &[String]) -> SpawnSeen {
 // Isolation: one run, one process. Code under test may keep process-wide state (a "formatter is
 // missing" memo, a cache): runs must not see each other's, or verdicts would depend on run order.
 
+/// Real seconds one run may take (a simulated run needs milliseconds, the largest module about
+/// two seconds): code that blocks on something of its own - a condition variable, a lock, a real
+/// sleep - is not seen by the process model and ends here.
+pub const RUN_WALL_LIMIT_S: u32 = 25;
+
 fn crashed_verdict(case: &Case, what: String) -> Verdict {
     let (eligible, kinds) = classify_case(case);
     let class = what.split(' ').next().unwrap_or("crash").to_string();
@@ -699,7 +704,7 @@ pub fn run_case_forked(case: &Case, reference: Option<&RefProgram>, want_log: bo
         // child: run, report through the pipe, leave without running any destructor or atexit
         unsafe {
             libc::close(fds[0]);
-            libc::alarm(120);
+            libc::alarm(RUN_WALL_LIMIT_S);
         }
         let v = run_case(case, reference, want_log);
         let bytes = serde_json::to_vec(&v).unwrap_or_default();
@@ -729,7 +734,7 @@ pub fn run_case_forked(case: &Case, reference: Option<&RefProgram>, want_log: bo
         Err(_) => {
             let sig = status & 0x7f;
             if sig == libc::SIGALRM {
-                crashed_verdict(case, "hang:wall_clock_120s the call did not return (outside the simulated process model)".into())
+                crashed_verdict(case, format!("hang:wall_clock the call did not return within {RUN_WALL_LIMIT_S} s of real time (blocked outside the simulated process model)"))
             } else {
                 crashed_verdict(case, format!("crash:process_died wait status {status:#x} (signal {sig}): the call took the whole process down"))
             }
@@ -779,7 +784,7 @@ pub fn one_main(args: &[String]) -> i32 {
         Ok(c) => c,
         Err(_) => return 2,
     };
-    unsafe { libc::alarm(120) };
+    unsafe { libc::alarm(RUN_WALL_LIMIT_S) };
     let cache = new_ref_cache();
     let reference = reference_for(&cache, &case.job);
     let v = run_case(&case, reference.as_ref(), args.first().map(|a| a == "log").unwrap_or(false));
@@ -1136,12 +1141,18 @@ pub fn gen_case(rng: &mut Rng) -> Case {
     // formatter misbehaves (or not), then the call described above.
     let mut earlier_calls = Vec::new();
     if rng.chance(170) {
-        for _ in 0..rng.usize(1, 2) {
+        // mostly one or two earlier calls; now and then half a dozen (what leaks a little per
+        // failed call - a slot, a handle, a thread - runs out only after several)
+        let earlier = if rng.chance(200) { rng.usize(4, 7) } else { rng.usize(1, 2) };
+        // a long sequence is often the same misfortune again and again (the formatter is simply
+        // not installed, or always fails the same way)
+        let same_every_time = (earlier > 2 && rng.chance(600)).then(|| rng.below(8));
+        for _ in 0..earlier {
             let mut plan = ProcPlan::well_behaved();
             plan.stdin_cap = proc.stdin_cap;
             plan.stdout_cap = proc.stdout_cap;
             plan.chunk = proc.chunk;
-            match rng.below(8) {
+            match same_every_time.unwrap_or_else(|| rng.below(8)) {
                 0 => plan.spawn = SpawnPlan::NotFound,
                 1 => plan.script = vec![Op::Exit(1)],
                 2 => plan.script = vec![Op::ReadToEof, Op::Exit(0)],
@@ -1346,7 +1357,13 @@ fn fails_same(case: &Case, class: &str, _cache: &RefCache) -> bool {
 pub fn minimise(case: &Case, class: &str, cache: &RefCache) -> (Case, u32) {
     let mut best = case.clone();
     let mut steps = 0u32;
+    // runs that end at the wall-clock limit cost real time: shrink for a few minutes at most
+    let deadline = std::time::Instant::now()
+        + std::time::Duration::from_secs(if class.starts_with("hang:wall_clock") { 55 } else { 150 });
     let mut try_accept = |cand: Case, best: &mut Case| -> bool {
+        if std::time::Instant::now() > deadline {
+            return false;
+        }
         if cand != *best && fails_same(&cand, class, cache) {
             *best = cand;
             steps += 1;
@@ -1891,8 +1908,10 @@ fn run_batch(mode: &str, seed: u64, n: u64) -> Result<Tally, String> {
                         case_for_run(seed, i)
                     };
                     case.env.extend(v.env_added.iter().cloned());
-                    if v.failure.as_ref().map(|f| !f.class.contains("semicolon")).unwrap_or(false) {
-                        failing.fetch_add(1, Ordering::Relaxed);
+                    if let Some(f) = v.failure.as_ref().filter(|f| !f.class.contains("semicolon")) {
+                        // a run that ended at the wall-clock limit cost 25 s: a handful settles it
+                        let weight = if f.class.starts_with("hang:wall_clock") { 12 } else { 1 };
+                        failing.fetch_add(weight, Ordering::Relaxed);
                     }
                     local.record(i, &case, v, ref_len);
                     if failing.load(Ordering::Relaxed) >= FAILING_RUNS_ENOUGH {
